@@ -762,6 +762,21 @@ def streams(ck: Check) -> None:
         M = rand_matrix(rng, n, rng.choice([3, 100, 10**6, 10**12]), rng.random() < 0.6, rng.choice([0.0, 0.2]))
         cm = rng.choice([[], [], ["a comment"], ["  padded\t", "two: colons"], ["EOF"], ["NAME: other"]])
         wcases.append((rng.choice(["w", "abc_1", "Z9"]), rng.choice([0, 0, 2]), rng.choice([1, 1, 3]), M, cm))
+    for _ in range(30 if ck.quick else 300):     # nearly symmetric: large entries, one mirrored pair differs by a few units
+        n = rng.choice([2, 3, 5])
+        hi = rng.choice([10**5, 10**7, 10**11])
+        M = rand_matrix(rng, n, hi, True)
+        for i in range(n):
+            for j in range(n):
+                if i != j:
+                    M[i][j] += hi
+        for i in range(n):
+            for j in range(i):
+                M[i][j] = M[j][i]
+        if rng.random() < 0.75:
+            i, j = rng.sample(range(n), 2)
+            M[i][j] += rng.choice([1, 2, 5, -1, -4])
+        wcases.append(("near", 0, 1, M, []))
     wcases.append(("w", 0, 1, [[0, 1], [1, 0]], [""]))        # blank comment: written, not readable
     wcases.append(("w", 0, 1, [[0, 1], [1, 0]], [" \t"]))
     for name, lb, mult, M, cm in wcases:
